@@ -2,6 +2,7 @@
   C19 with the fresh description: membership ("a member of the group") and the minimum a removal must respect are
   those of the cloud's own answer in the same scan.
 -/
+import EscProofs.P.GenTryDelete
 import EscProofs.P.GenAws
 import EscProofs.P.Forever
 import EscProofs.P.C19
